@@ -30,4 +30,22 @@ CLAIMED = {
         note='Trusted: Coq kernel, py2coq, harness. Squared-distance form (sqrt monotone). Lipschitz continuity and the polylabel '
              'bound are validated only.',
         technique=T_Q),
+    'C01': dict(
+        text='Polygon2D.area / is_clockwise (translated from the source loop) are proved equal to the shoelace sum of the vertex loop '
+             'for every vertex count; the sum is proved independent of the start vertex, negated by reversal, invariant under '
+             'translation, multiplied by det M under any linear map (rotation, mirror, scale k^2) and equal to the triangle-fan and '
+             'trapezoid definitions; Face3D.area is proved to be |Newell vector . normal|/2 for any orthonormal plane frame. Perimeter, '
+             'centroids, holes, meshes, prism volumes and closed forms are searched against exact Fraction references.',
+        note='Trusted: Coq kernel, py2coq, harness. Face3D model covers faces without holes (holes validated). Shoelace/Newell are the '
+             'reference definition of area; sqrt-based lengths are validated only.',
+        technique=T_Q),
+    'C06': dict(
+        text='Plane.__init__ is proved to build an orthonormal right-handed frame in both branches of its Z-axis test; the 2D<->3D maps '
+             'are proved mutually inverse on the plane; the Face3D constructor is proved never to store a clockwise boundary for every '
+             'vertex list and every (possibly opposing) user plane; the projected signed area is proved equal to area vector . normal for '
+             'any loop, planar or not (right-hand rule); flip reverses the boundary and flips the plane. All constructors, holes, '
+             'near-Z planes and from_dict/from_array are searched against exact references.',
+        note='Trusted: Coq kernel, py2coq, harness. sqrt enters as a function parameter, assumed a morphism for == and exact on the '
+             'radicands used (pointwise). Face3D model covers faces without holes.',
+        technique=T_Q),
 }
